@@ -764,6 +764,45 @@ def check(tier: str, seed: int, t0: float, build: core.BuildStatus) -> int:
     one("atlas", ct, cs)
     cvars.unique_var_index = max(saved, cvars.unique_var_index)
     extra["end_to_end"] = dict(e2e, n=nD + 3 + len(builtin_cases()) + 1)
+    # (E) a call site whose code is generated more than once (a sequence consumed twice): every copy is substituted afresh,
+    # with the names of the loop it sits in - checked with the Coq-defined scope checker of C02 on the emitted program
+    twice = 0
+    if model is not None:
+        from .. import cxx, qgen as _qgen, semrun
+        from . import c02 as _c02
+
+        fmd = {"metadata_type": "add_cpp_function", "name": "fv_twice", "include_files": [], "arguments": ["x"], "code": ["auto result = x * 2.0;"], "return_type": "double"}
+        for be in BACKENDS:
+            coll = BACKENDS[be][0]
+            shapes = [f"ds.Select(lambda e: {coll}.Select(lambda j: fv_twice(j.pt()))).Select(lambda vs: (vs.Count(), vs.Sum()))",
+                      f"ds.Select(lambda e: {coll}.Where(lambda j: fv_twice(j.eta()) < 1.0)).Select(lambda js: (js.Count(), js.Select(lambda k: k.pt())))",
+                      f"ds.Select(lambda e: {coll}.Select(lambda j: fv_twice(j.pt()) + fv_twice(j.eta()))).Select(lambda vs: (vs.Sum(), vs.Count(), vs.Select(lambda v: v * 2)))"]
+            if be == "atlas":
+                shapes.append(f"ds.Select(lambda e: {coll}.Where(lambda j: DeltaR(j.eta(), j.phi(), 0.0, 0.0) < 0.4)).Select(lambda js: (js.Count(), js.Select(lambda k: k.pt())))")
+            for src in shapes:
+                a = impl.query_ast(src, [fmd])
+                r = impl.translate(be, a)
+                impl.reset_globals()
+                oc.evaluations += 1
+                twice += 1
+                rep = {"kind": "twice", "backend": be, "query": src, "metadata": [fmd]}
+                if r[0] != "ok":
+                    oc.violations.append(core.Violation(key="c11:twice-refused", what=f"{be}: {src} refused: {r[1:]}", replay=rep))
+                    continue
+                try:
+                    prog, ql = cxx.parse_program(be, r[1]["slots"])
+                    semrun._resolve_tokens(prog)
+                    res = model.call("c02.check", [prog, _c02.method_table(_qgen.Universe(be))])
+                    bad_scope = ([f"{x[0]}: {n}" for x in res[1:] if x[0] in ("well_scoped", "unique_decls") for n in x[1]] if res[0] == "ok" else [f"model refused the program: {res}"])
+                except cxx.ParseError as e:
+                    bad_scope = [f"emitted code outside the C++ subset: {e}"]
+                if bad_scope:
+                    oc.violations.append(core.Violation(
+                        key="c11:second-copy-not-substituted", what=f"{be}: a call site generated twice: the emitted code is not well-scoped ({bad_scope[0][:120]}) - {src}",
+                        replay={**rep, "static_checker": bad_scope[:4], "emitted": [str(x) for x in r[1]["slots"].get("query_code", [])]}))
+                else:
+                    oc.traces_validated_against_impl += 1
+    extra["call_sites_generated_twice"] = twice
 
     if model is not None:
         model.close()
